@@ -170,6 +170,9 @@ func run(c *Case) (*outcome, *vkit.Violation, error) {
 			}
 			n.Process.VerifAgeGenerations(2 * time.Hour)
 		}
+		if len(cl.Net.HookPanics) > 0 {
+			return o, nil, fmt.Errorf("a hook of the check itself panicked: %s", cl.Net.HookPanics[0])
+		}
 		if len(cl.Net.Panics) > 0 {
 			return o, vkit.Violf("instance-panicked", "prior generation (n=%d,t=%d) crashed an instance: %v", c.N, c.T, cl.Net.Panics), nil
 		}
@@ -181,6 +184,9 @@ func run(c *Case) (*outcome, *vkit.Violation, error) {
 		}
 	}
 	resp, err := init.GenerateWithPassphrase(client, account, c.N, c.T, pass)
+	if len(cl.Net.HookPanics) > 0 {
+		return o, nil, fmt.Errorf("a hook of the check itself panicked: %s", cl.Net.HookPanics[0])
+	}
 	if len(cl.Net.Panics) > 0 {
 		return o, vkit.Violf("instance-panicked", "generation (n=%d,t=%d) crashed an instance: %v", c.N, c.T, cl.Net.Panics), nil
 	}
